@@ -50,6 +50,14 @@ def harnesses():
     # message-assembly templates (recv_data / recv_ping_data / recv_fragments / recv_nonblocking with data) are defined in
     # kani/src/c11.rs but NOT scheduled: CBMC runs out of memory (>16-20 GB, 15-25 min) on the Vec<Frame> / fold / extend path even
     # for one 1-byte frame with per-loop bounds (measured 2026-09-29; DESIGN §5 C11). They are listed as outside the claim.
+    def add_data(name, body, tier, desc, frames, plan):
+        # message-assembly templates: global unwind 2 (keeps the drop glue of Vec<Frame>/Message small), real bounds per loop
+        rx = 3 if plan == 0 else 6
+        hs.append(H(name, body, 2, tier, desc, attrs=list(NET_STUBS), timeout=1800, mem_gb=16,
+                    unwindset=[("src/lib.rs", "bytes", 6), ("src/c11.rs", "", 9), ("humphrey-ws/src/frame.rs", "from_stream_inner", 2),
+                               ("humphrey-ws/src/message.rs", "Message::from_stream", frames + 1), ("io/read.rs", "read_exact", rx), ("io/mod.rs", "read_exact", rx),
+                               ("io/write.rs", "write_all", 3), ("slice/iter/macros.rs", "", 5), ("iter/adapters", "", 5), ("@raw", "memcmp.0", 8)]))
+    # (not scheduled: even with global unwind 2 + per-loop bounds c11_recv_data_l1_whole needs > 16 GB: 747k SSA steps, measured)
     for LC, plan in ((0, 0), (2, 0), (2, 1), (1, 1)):
         add("c11_close_%d_%s" % (LC, PL[plan]), "recv_close::<_, %d, %d, 0>" % (LC, plan), 8, "quick" if (LC, plan) in ((2, 0), (0, 0), (2, 1)) else "thorough",
             "Close(%d bytes), %s: ConnectionClosed, one Close frame back, nothing on drop" % (LC, PL[plan]), frames=1, plan=plan)
